@@ -120,7 +120,18 @@ def run_case(case) -> Result:
             for a, b in split_chunks(n, case.get("chunks", [])):
                 live.append(src[a:b])
             live.calculate()
-            if not same(batch.as_list(), live.as_list()):
+            # the settings handed over as an `args` dict that the caller goes on using (changes, empties) afterwards
+            from hexital.indicators import Amorph
+
+            shared = dict(kw)
+            held = Amorph(analysis=f, args=shared, candles=_candles(case))
+            shared["length"] = 1 + kw.get("length", 1)
+            shared["lookback"] = 1 + (kw.get("lookback") or 1)
+            held.calculate()
+            if not same(held.as_list(), batch.as_list()):
+                k = next(i for i, (x, y) in enumerate(zip(held.as_list(), batch.as_list())) if not same(x, y))
+                viol.append(Violation("wrapper-settings-follow-the-callers-dict", "amorph", f"{name}({kw}) candle {k}: built from an args dict that was changed afterwards reads {held.as_list()[k]!r}, built from keywords {batch.as_list()[k]!r}", name))
+            if not viol and not same(batch.as_list(), live.as_list()):
                 k = next(i for i, (x, y) in enumerate(zip(batch.as_list(), live.as_list())) if not same(x, y))
                 viol.append(Violation("wrapper-live-differs-from-batch", "amorph", f"{name}({kw}) candle {k}: batch {batch.as_list()[k]!r} live {live.as_list()[k]!r}", name))
         except Exception as exc:
